@@ -391,3 +391,44 @@ pub fn contend_case(prop: &str) -> BoxedStrategy<Case> {
         })
         .boxed()
 }
+
+/// C07: a pool populated with idle objects, then two to four resize calls that overlap each
+/// other (thread-level pauses inside them) and nothing else - the stretch in which the outcome
+/// has to be that of some serial order of the calls
+pub fn resize_overlap_case() -> BoxedStrategy<Case> {
+    let p = Profile::base();
+    (1u8..=4, any::<bool>(), hooks(p.hooks_max), hooks(p.hooks_max), hooks(p.hooks_max), 0u8..=4, 0u8..=4)
+        .prop_flat_map(|(max_size, lifo, post_create, pre_recycle, post_recycle, out, kept)| {
+            let resize = (0u8..=5, prop::option::weighted(0.7, 0u8..7)).prop_map(|(n, pause)| Step::Resize { n, pause });
+            let tail = prop::collection::vec(
+                prop_oneof![
+                    6 => resize,
+                    2 => (any::<u8>(), prop::option::weighted(0.2, 0u8..4)).prop_map(|(p, pause)| Step::Resume { p, pause }),
+                    1 => Just(Step::Status),
+                ],
+                2..=6,
+            );
+            (Just((max_size, lifo, post_create, pre_recycle, post_recycle, out, kept)), tail)
+        })
+        .prop_map(|((max_size, lifo, post_create, pre_recycle, post_recycle, out, kept), tail)| {
+            let n_get = out.min(max_size);
+            let n_ret = n_get.saturating_sub(kept.min(n_get));
+            let mut steps = vec![];
+            for _ in 0..n_get {
+                steps.push(Step::StartGet { zero_wait: false, pause: None });
+            }
+            for _ in 0..n_ret {
+                steps.push(Step::Return { h: 0, pause: None });
+            }
+            steps.extend(tail);
+            Case {
+                cfg: Cfg { max_size, lifo, post_create, pre_recycle, post_recycle },
+                script: Script::default(),
+                steps,
+                matrix: None,
+                sweep: None,
+                timed: None,
+            }
+        })
+        .boxed()
+}
